@@ -45,7 +45,9 @@ MAXTASKS = None
 NAMES = ['test_a (m.T.test_a)', 'tëst_ü (m.T.tëst_ü)', 'x' * 5000,
          'name with spaces (and) parens', '3 1 1', 'multi\nline\nid',
          'cr\rid', 'crlf\r\nid', 'ls id', 'vt\x0bid', 'fs\x1cid',
-         'nel\x85id', ' lead and trail ', 'tab\tid', '0 0 0']
+         'nel\x85id', ' lead and trail ', 'tab\tid', '0 0 0',
+         # a file name decoded with surrogateescape in a test id
+         'caf\udce9.txt (doc)']
 NOISE = [b'text\n', b'\n', b'Traceback (most recent call last):\n', b'1 2\n',
          b'1 2 x\n', b'\xff\xfe invalid utf-8\n', b'x' * 200000 + b'\n',
          b'0 0 0\n', b'7 1 0\n',
@@ -57,7 +59,9 @@ STDOUTS = [b'', b'..\n.\n', b'y' * (1 << 20) + b'\n', b'\xff\xfe\n',
 
 def expected_name(n):
     # a line protocol cannot carry line breaks: each of CRLF / CR / LF in a
-    # test id arrives as one blank; everything else arrives verbatim
+    # test id arrives as one blank; everything else arrives verbatim (what
+    # UTF-8 cannot encode arrives in its backslash-escaped spelling)
+    n = n.encode('utf-8', 'backslashreplace').decode('utf-8')
     return re.sub('\r\n|\r|\n', ' ', n.strip())
 
 
@@ -110,7 +114,7 @@ class _Inline:
         return False
 
 
-def call_spawn(out, err, v, oserror=False, parent_encoding=None):
+def call_spawn(out, err, v, oserror=False, parent_encoding=None, oserrno=24):
     """Run the real spawn_layer_in_subprocess on given child bytes."""
     from zope.testrunner.options import get_options
     state = {'popen': 0, 'kill': 0, 'communicate': 0}
@@ -119,7 +123,7 @@ def call_spawn(out, err, v, oserror=False, parent_encoding=None):
         def __init__(self, args, **kw):
             state['popen'] += 1
             if oserror:
-                raise OSError(24, 'Too many open files (injected)')
+                raise OSError(oserrno, os.strerror(oserrno) + ' (injected)')
             self.stdout = io.BytesIO(out)
             self.stderr = io.BytesIO(err)
             self.stdin = None
@@ -318,13 +322,15 @@ def run_case(case):
                 judge('stdout %r' % so[:20], rep, so, full, v, full, True, viol, {'part': 'stdout'})
                 evals += 1
     elif kind == 'oserror':
-        for v in (0, 1, 2):
-            res, failures, errors, exc, state, printed = call_spawn(b'', b'', v, oserror=True)
-            evals += 1
-            if exc is not None:
-                viol.append(('exception_escaped', {'part': 'oserror'}, repr(exc)))
-            elif [e[0] for e in errors] != ['subprocess for vtw.tests.L'] or failures or not res.done:
-                viol.append(('spawn_failure_not_recorded', {'part': 'oserror'}, 'errors=%r failures=%r done=%s' % (errors, failures, res.done)))
+        import errno as _errno
+        for en in (_errno.EMFILE, _errno.EAGAIN, _errno.ENOMEM, _errno.ENOENT, _errno.EACCES, _errno.EINTR):
+            for v in (0, 1, 2):
+                res, failures, errors, exc, state, printed = call_spawn(b'', b'', v, oserror=True, oserrno=en)
+                evals += 1
+                if exc is not None:
+                    viol.append(('exception_escaped', {'part': 'oserror'}, 'errno %s: %r' % (_errno.errorcode[en], exc)))
+                elif [e[0] for e in errors] != ['subprocess for vtw.tests.L'] or failures or not res.done:
+                    viol.append(('spawn_failure_not_recorded', {'part': 'oserror'}, 'errno %s: errors=%r failures=%r done=%s' % (_errno.errorcode[en], errors, failures, res.done)))
     elif kind == 'crash':
         evals, vs = run_crash(a[0], a[1], b)
         viol += vs
@@ -351,7 +357,7 @@ def worlds_tag(n):
             return t
     if n.strip() != n:
         return 'blanks'
-    if ow._triple(n.encode()) is not None:
+    if ow._triple(n.encode('utf-8', 'backslashreplace')) is not None:
         return 'triple'
     return 'plain' if n.isascii() else 'non-ascii'
 
